@@ -101,15 +101,15 @@ def run(ctx):
                 allg = sorted(set(g for v in img['markers'].values() for g in v))
                 base['markers'] = {'0/0': allg}
             else:
-                img['cfg']['drop_name'] = 'no_such_level'
-            scheme = rng.choice(['structural', 'reversed', 'shared'])
+                img['cfg']['drop_name'] = rng.choice(['no_such_level', 'prefix-of-top'])
+            scheme = rng.choice(['structural', 'reversed', 'shared', 'prefix'])
             items.append((img, scheme, {}))
             items.append((base, scheme, {}))
             meta.append((kind, lev))
         # absent level: materialise passes cfg['drop']; emulate an absent name via a level id
         for it in items:
             if it[0]['cfg'].get('drop_name'):
-                it[0]['cfg']['drop'] = 9     # Naming.level(9) is not in the hierarchy
+                it[0]['cfg']['drop'] = None  # build.materialise passes the literal name
         rs = relations.run_many(ctx, items)
         pairs = []
         for i, (kind, lev) in enumerate(meta):
